@@ -138,6 +138,14 @@ class Potential_Form_Registry(object):
       func = _Python_Potential_Function(d, pyfunc)
       new_mathfuncs.append(func)
 
+    # As for the labels of the forms among themselves: names that differ only in case cannot be told apart inside a formula
+    lowered = dict([(label.lower(), label) for label in self._potential_forms])
+    for pyfunc in new_mathfuncs:
+      label = pyfunc._potential_form_tuple.signature.label
+      other = lowered.get(label.lower(), label)
+      if other != label:
+        raise Potential_Form_Registry_Exception("The label of a potential form differs only in case from a library function: '{0}' and '{1}'".format(other, label))
+
     for pform in self._potential_forms.values():
       for pyfunc in new_mathfuncs:
         pform.potential_function.register_function(pyfunc)
